@@ -10,5 +10,8 @@ CONSTANTS
   BareCtlSend = TRUE
   KeepFoundBlock = TRUE
   SilentSeekHit = TRUE
+  EarlyReturnOnForeign = FALSE
+  KeepOnGet = FALSE
+  Foreign = {}
 INVARIANTS NoPanic DataIdentity ErrorsTrue NoStaleMapping CacheBounded Capacities NoLeak
 CHECK_DEADLOCK TRUE
